@@ -77,7 +77,7 @@ class NonThreadedExecutor:
             value = cells.on_eval_formula(key)
 
         except:
-            self.callstack.rollback()
+            self.callstack.rollback(sys.exc_info()[1])
             raise
         else:
             self.callstack.pop()
@@ -88,6 +88,7 @@ class NonThreadedExecutor:
 
         self.excinfo = None
         self.errorstack = None
+        self.rolledback.clear()
         self.is_executing = True
 
         try:
@@ -172,6 +173,7 @@ class ThreadedExecutor(NonThreadedExecutor):
         self.initnode = node
         self.excinfo = None
         self.errorstack = None
+        self.rolledback.clear()
         try:
             self.is_executing = True
             self.thread.signal_start.set()
@@ -294,10 +296,10 @@ class CallStack(deque):
 
         return node
 
-    def rollback(self):
+    def rollback(self, exc=None):
         node = deque.pop(self)
         self.idxstack.pop()
-        self.executor.rolledback.append(node)
+        self.executor.rolledback.append((node, exc))
         self.counter -= 1
         cells = node[OBJ]
 
@@ -384,6 +386,13 @@ class ErrorStack(deque):
         self.on_eval_flag = False
 
         mxdir = os.path.dirname(modelx.__file__)
+
+        # Keep only the nodes unwound by the error that escaped.
+        # Nodes unwound by errors that formulas handled are discarded.
+        chain = deque(
+            node for node, exc in rolledback if exc is execinfo[1])
+        rolledback.clear()
+        rolledback = chain
 
         for frame in tbexc.stack:
             if mxdir in frame.filename and frame.name == "on_eval_formula":
